@@ -58,8 +58,8 @@ def _xor_region(pre):
 def _px_parse_ok(pre, post):
     o, o2 = S_(pre), post.obj('stream')
     inner = Sub(pre, 'subcon', o=_xor_region(pre))
-    return [('inner-construct-sees-the-rest-of-the-stream-xored-with-the-cycled-key-and-its-value-is-returned', result_is(post, inner.val), ('C15', 'C08')),
-            ('outer-stream-read-to-its-end', t.eq(o2.pos, t.add(o.pos, _avail(o))), ('C15', 'C08')),
+    return [('inner-construct-sees-the-rest-of-the-stream-xored-with-the-cycled-key-and-its-value-is-returned', result_is(post, inner.val), ('C15', 'C08', 'C01', 'C02')),
+            ('outer-stream-read-to-its-end', t.eq(o2.pos, t.add(o.pos, _avail(o))), ('C15', 'C08', 'C01', 'C02')),
             ('buffer-unchanged', buffer_same(pre, post), ('C17', 'C08'))]
 
 
@@ -76,9 +76,9 @@ def _px_build_ok(pre, post):
     i = t.var('i!', t.INT)
     written = forall_range(i, o.pos, t.add(o.pos, s.len), t.eq(t.select(o2.buf, i), t.app('bxor', t.INT, t.select(s.bytes, t.sub(i, o.pos)), key_at(P, t.sub(i, o.pos)))),
                            [[t.select(o2.buf, i)]])
-    return [('advances-by-the-inner-length', t.eq(o2.pos, t.add(o.pos, s.len)), ('C15', 'C05')),
-            ('emits-the-inner-bytes-xored-with-the-cycled-key', written, ('C15',)),
-            ('returns-inner-build-value', result_is(post, s.ret), ('C15', 'C01'))]
+    return [('advances-by-the-inner-length', t.eq(o2.pos, t.add(o.pos, s.len)), ('C15', 'C05', 'C01', 'C02')),
+            ('emits-the-inner-bytes-xored-with-the-cycled-key', written, ('C15', 'C01', 'C02')),
+            ('returns-inner-build-value', result_is(post, s.ret), ('C15', 'C01', 'C02'))]
 
 
 fcontract('ProcessXor', '_build', [
